@@ -17,6 +17,7 @@ package c12
 // exactly its own logs.
 
 import (
+	"flag"
 	"fmt"
 	"os"
 	"sort"
@@ -41,8 +42,19 @@ func TestMain(m *testing.M) {
 	stats.Assume("a frame 'failed' iff the EVM reported failure to its parent (status word 0 / error returned to the caller); statuses are read from a report the generated programs pass upwards")
 	stats.Assume("CREATE/CREATE2 addresses are derived by the harness (Yellow Paper / EIP-1014) with its own Keccak and RLP")
 	stats.Assume("receipt logs are AccountDB.GetLogs(txHash) (proposal 013 path); the logs returned by evm.Call are not asserted")
-	evmh.Boot()
+	flag.Parse()
 	guardDeposit = stats.IsKnown("F-C12-b")
+	if *execMode {
+		if err := bootNode(); err != nil {
+			fmt.Println("VERIF-INCONCLUSIVE boot:", err)
+			os.Exit(1)
+		}
+		code := m.Run()
+		stats.Flush("C12")
+		execNode.Stop()
+		os.Exit(code)
+	}
+	evmh.Boot()
 	stats.Main(m, "C12")
 }
 
@@ -210,6 +222,65 @@ func genTree(t *rapid.T, rootKind fkind, maxNodes, maxDepth, idBase int, noCSOOG
 		}
 	})
 	return root, g.steered
+}
+
+// genStaticTree is the focused part of the domain: root -> STATICCALL -> 0-2 nested frames -> a leaf
+// whose program contains exactly one state-modifying operation, everything declared to return.
+func genStaticTree(t *rapid.T, idBase int) *node {
+	leaf := &node{out: oReturn}
+	w := rapid.IntRange(0, 12).Draw(t, "staticWrite")
+	switch {
+	case w == 0:
+		leaf.steps = []step{{k: sSstore, slot: 1, val: 7}}
+	case w == 1:
+		leaf.steps = []step{{k: sTstore, slot: 1, val: 7}}
+	case w <= 6:
+		s := step{k: sLog, data: 77}
+		for j := 0; j < w-2; j++ {
+			s.topics = append(s.topics, uint64(j+1))
+		}
+		leaf.steps = []step{s}
+	case w == 7:
+		leaf.steps = []step{{k: sTransfer, to: 1, amount: 1}}
+	case w == 8:
+		leaf.steps = []step{{k: sAuthCall, to: 1, amount: uint64(rapid.IntRange(0, 2).Draw(t, "amount"))}}
+	case w == 9:
+		leaf.steps = []step{{k: sChild, child: &node{kind: kCreate, out: oReturn}}}
+	case w == 10:
+		leaf.steps = []step{{k: sChild, child: &node{kind: kCreate2, out: oReturn}}}
+	case w == 11:
+		leaf.steps = []step{{k: sChild, child: &node{kind: kCall, value: 1, out: oReturn}}}
+	default:
+		leaf.out = oSelfdestruct
+	}
+	if rapid.IntRange(0, 3).Draw(t, "readBefore") == 0 { // something harmless before the write
+		leaf.steps = append([]step{{k: sChild, child: &node{kind: kStatic, out: oReturn}}}, leaf.steps...)
+	}
+	cur := leaf
+	for i, n := 0, rapid.IntRange(0, 2).Draw(t, "nest"); i < n; i++ {
+		cur.kind = rapid.SampledFrom([]fkind{kCall, kDelegate, kCallCode, kStatic}).Draw(t, "nestKind")
+		if cur.kind == kCallCode {
+			cur.value = uint64(rapid.IntRange(0, 1).Draw(t, "ccValue"))
+		}
+		cur = &node{out: oReturn, steps: []step{{k: sChild, child: cur}}}
+	}
+	cur.kind = kStatic
+	root := &node{kind: kCall, out: oReturn, steps: []step{{k: sSstore, slot: 0, val: 3}, {k: sChild, child: cur}, {k: sTstore, slot: 0, val: 4}}}
+	root.number(idBase)
+	root.walk(func(n *node) {
+		n.deposit = n.span
+		n.keep = 700_000
+		for i := range n.steps {
+			if n.steps[i].k == sAuthCall {
+				n.steps[i].key = n.id*8 + i
+				if stats.IsKnown("F-C12-c") {
+					n.steps[i] = step{k: sTstore, slot: 0, val: 1}
+					stats.Exclude("F-C12-c")
+				}
+			}
+		}
+	})
+	return root
 }
 
 // ---------- frame-tree case ----------
@@ -514,16 +585,32 @@ func failf(t *rapid.T, tc *treeCase, d []string) {
 	t.Fatalf("C12 violated\n  tree: %s\n  cold=%v gas=%d\n  %s", tc.tree, tc.cold, tc.gas, strings.Join(d, "\n  "))
 }
 
+func skipIfExec(t *testing.T) {
+	if *execMode {
+		t.Skip("block-executor process")
+	}
+}
+
 func TestFrameTrees(t *testing.T) {
+	skipIfExec(t)
 	known := stats.IsKnown("F-C12-b")
-	stats.Check(t, 1200, 12000, func(t *rapid.T) {
+	stats.Check(t, 1500, 15000, func(t *rapid.T) {
 		rootKind := kCall
 		if rapid.IntRange(0, 4).Draw(t, "rootCreate") == 0 {
 			rootKind = kCreate
 		}
-		tree, steered := genTree(t, rootKind, 14, 4, 0, known)
-		if steered {
-			stats.Exclude("F-C12-b")
+		var tree *node
+		if rapid.IntRange(0, 4).Draw(t, "staticFocusTree") == 0 {
+			rootKind = kCall
+			tree = genStaticTree(t, 0)
+			stats.Class("generator:static_focus")
+		} else {
+			var steered bool
+			tree, steered = genTree(t, rootKind, 14, 4, 0, known)
+			if steered {
+				stats.Exclude("F-C12-b")
+			}
+			stats.Class("generator:general")
 		}
 		tc := &treeCase{tree: tree, cold: rapid.Bool().Draw(t, "cold"), initStore: map[int]map[uint64]uint64{}}
 		tree.walk(func(n *node) {
